@@ -187,6 +187,9 @@ def run_mutant(slot, m, budget, suite, workers):
 
 def main():
     args = sys.argv[1:]
+    if "--help" in args or "-h" in args:
+        print(__doc__)
+        return
     jobs, budget, suite, only = 4, 8, True, []
     i = 0
     while i < len(args):
